@@ -1,7 +1,8 @@
 import TTModel.Proto
 import TTModel.FS
+import TTModel.FSTag
 import TTGen.C18_SavePlan
-open TT.FS TT.Proto
+open TT.FS TT.FSTag TT.Proto
 
 def contentChar : Content → Char
   | .absent => 'A' | .trunc => 'T' | .complete => 'C'
@@ -40,6 +41,16 @@ def runOps (s : St) : List Op → Nat → String
     | none => s!"raise@{i} {showSt s}"
     | some s' => runOps s' ops (i + 1)
 
+def showTC : TContent Nat → String
+  | .absent => "A" | .trunc => "T" | .complete g => toString g
+def parseTC (w : String) : Option (TContent Nat) :=
+  match w with
+  | "A" => some .absent
+  | "T" => some .trunc
+  | _ => w.toNat?.map .complete
+def showTSt (s : TSt Nat) : String := s!"{showTC s.name},{showTC s.new},{showTC s.old}"
+def showBest (s : TSt Nat) : String := match best s with | some g => toString g | none => "-"
+
 def handle (line : String) : String :=
   match splitWords line with
   | ["prog", sf, ov, st] =>
@@ -55,6 +66,23 @@ def handle (line : String) : String :=
     match parseSt st, ops.mapM parseOp with
     | some s, some ops => runOps s ops 0
     | _, _ => "bad-op"
+  -- tagged model: `trun g n w o ops…` explicit operations with generation g being written;
+  -- `tprog g n w o` the generated program interrupted after k = 0..depth operations
+  | "trun" :: g :: n :: w :: o :: ops =>
+    match g.toNat?, parseTC n, parseTC w, parseTC o, ops.mapM parseOp with
+    | some g, some n, some w, some o, some ops =>
+      let s' := trun g ⟨n, w, o⟩ ops
+      s!"{showTSt s'} best {showBest s'}"
+    | _, _, _, _, _ => "bad-op"
+  | ["tprog", g, n, w, o] =>
+    match g.toNat?, parseTC n, parseTC w, parseTC o with
+    | some g, some n, some w, some o =>
+      let p := TTGen.C18_SavePlan.prog
+      let states := (List.range (p.depth + 1)).map fun k =>
+        let s' := trunProg ⟨true, false⟩ g ⟨n, w, o⟩ p k
+        s!"{showTSt s'}/{showBest s'}"
+      " ".intercalate states
+    | _, _, _, _ => "bad-op"
   | ["inv", st] => match parseSt st with
     | some s => if decide (CkInv s) then "1" else "0"
     | none => "bad-op"
